@@ -164,6 +164,13 @@ func c11Cases(c runCfg) ([]*scratch.Pkg, []string, map[string]interface{}) {
 	dist := map[string]int{}
 	for i, cf := range confs {
 		sa, sb := schemeFor("A", cf.ka), schemeFor("B", cf.kb)
+		if sa.Kind == "keyheader" {
+			// the header as the document spells it: canonical, upper-case run, lower case
+			sa.Param = []string{"X-Key-A", "X-KEY-A", "x-key-a", "X-API-KeyA"}[i%4]
+		}
+		if sb.Kind == "keyheader" {
+			sb.Param = []string{"X-Key-B", "x-key-b", "X-KEY-B"}[i%3]
+		}
 		sp := &dialect.Spec{Schemes: []dialect.Scheme{sa, sb}}
 		sp.Global, sp.HasGlobal, _ = globalSecurity(cf.g)
 		s1, n1 := opSecurity(cf.o1)
